@@ -84,6 +84,11 @@ pub struct Case {
     /// the channel type that was negotiated on the wire
     #[serde(default)]
     pub wire: Option<u8>,
+    /// the channel gets a permanent id (different from its initial id) at setup and the signer is
+    /// restarted from the store between commitment 0 and the request under test; the request then
+    /// addresses the channel by its permanent id
+    #[serde(default)]
+    pub perm_restart: bool,
 }
 
 fn hsel_strat() -> impl Strategy<Value = HSel> {
@@ -271,10 +276,10 @@ impl Prop for C04 {
         (
             (any::<bool>(), any::<bool>(), delay.clone(), delay, 0u8..4, any::<u8>(), prop_oneof![Just(0u16), Just(1u16), Just(65535u16), any::<u16>()]),
             (0u8..3, 0u8..3, 0u8..3, proptest::collection::vec(hsel_strat(), 0..5)),
-            (prop::bool::weighted(0.1), prop::bool::weighted(0.3), mutation_strat(), prop_oneof![12 => Just(None), 1 => Just(Some(0u8)), 1 => Just(Some(1u8))]),
+            (prop::bool::weighted(0.1), prop::bool::weighted(0.3), mutation_strat(), prop_oneof![12 => Just(None), 1 => Just(Some(0u8)), 1 => Just(Some(1u8))], prop::bool::weighted(0.15)),
         )
-            .prop_map(|((anchors, outbound, holder_delay, cp_delay, peer, dbid, vout), (value_sel, fee, to_cp, htlcs), (retry0, phase2, mutation, wire))| Case {
-                anchors, outbound, holder_delay, cp_delay, peer, dbid, vout, value_sel, fee, to_cp, htlcs, retry0, phase2, mutation, wire,
+            .prop_map(|((anchors, outbound, holder_delay, cp_delay, peer, dbid, vout), (value_sel, fee, to_cp, htlcs), (retry0, phase2, mutation, wire, perm_restart))| Case {
+                anchors, outbound, holder_delay, cp_delay, peer, dbid, vout, value_sel, fee, to_cp, htlcs, retry0, phase2, mutation, wire, perm_restart,
             })
             .boxed()
     }
@@ -299,7 +304,21 @@ impl Prop for C04 {
             cp_delay: case.cp_delay,
             funding_vout: case.vout as u32,
         };
-        let ci = w.open(&spec);
+        let ci = if case.perm_restart {
+            let ci = match w.new_stub(&spec) {
+                Out::Ok(i) => i,
+                o => panic!("new_stub failed: {}", o.err_msg()),
+            };
+            w.chans[ci].perm_id = Some(lightning_signer::channel::ChannelId::new(&[0x70, 0x65, 0x72, 0x6d, case.dbid, case.peer, 1, 2, 3]));
+            match w.setup_chan(ci) {
+                Out::Ok(()) => {}
+                o => panic!("setup_chan failed: {}", o.err_msg()),
+            }
+            st.class("perm_id_and_restart");
+            ci
+        } else {
+            w.open(&spec)
+        };
         let payee = PublicKey::from_secret_key(&w.secp, &SecretKey::from_slice(&[5u8; 32]).unwrap());
         for h in 0u8..4 {
             w.node.add_keysend(payee, phash(h), 20_000_000_000).expect("keysend");
@@ -314,6 +333,15 @@ impl Prop for C04 {
             st.class(format!("setup-refused:{}", short_err(&r0.err_msg())));
             return Ok(());
         }
+        if case.perm_restart {
+            let r = w.restart();
+            if !r.is_ok() {
+                st.class("restart_failed");
+                return Ok(());
+            }
+        }
+        let chan = &w.chans[ci];
+        let secp = &w.secp;
         // target request
         let (n, content) = if case.retry0 {
             (0u64, c0.clone())
